@@ -92,6 +92,10 @@ func (w *colView) CopyState() ColViewState {
 
 const colViewColGap = 1
 
+// Minimal width of a column; this is the width needed for showing a full-width
+// character, and widgets are not expected to cope with anything narrower.
+const colViewMinColWidth = 2
+
 // Render renders all the columns side by side, putting the dot in the focused
 // column.
 func (w *colView) Render(width, height int) *term.Buffer {
@@ -135,6 +139,12 @@ func (w *colView) prepareRender(width int) ([]Widget, []int) {
 		return nil, nil
 	}
 	widths := distribute(width-(ncols-1)*colViewColGap, w.Weights(ncols))
+	for _, colWidth := range widths {
+		if colWidth < colViewMinColWidth {
+			// Too narrow; give up by rendering nothing.
+			return nil, nil
+		}
+	}
 	return state.Columns, widths
 }
 
